@@ -94,7 +94,13 @@ def run_scenario(entry, plan, container, seed, tid):
         if m == "inverse_transform":
             return est.inverse_transform(inv)
         if kind == "forecaster":
-            return est.predict([1, 2, 3]) if m == "predict" else est.predict([-2, -1, 0, 1])
+            if m == "predict":
+                return est.predict([4, 5, 6])
+            if seed % 2:
+                # an absolute in-sample horizon with the very values of the relative one above
+                from sktime.forecasting.base import ForecastingHorizon
+                return est.predict(ForecastingHorizon(pd.Index([4, 5, 6]), is_relative=False))
+            return est.predict([-2, -1, 0, 1])
         return getattr(est, m)(Xarg if Xa is None else Xa)
     import joblib
 
@@ -230,6 +236,9 @@ def run(ctx):
         else:
             k = 6 if slow else len(pl)
         chosen = pl if len(pl) <= k else [pl[(ei * 7 + j * 5) % len(pl)] for j in range(k)]
+        if prof in ("pp", "pi"):     # one fixed interleaving with every method repeated
+            a, b = entry["methods"]
+            chosen = list(chosen) + [("fit", a, b, a, a, b)]
         conts = ["series", "frame"] if entry["kind"] == "series-transformer" and entry.get("missing") else \
             (["series"] if entry["kind"] in ("series-transformer", "forecaster") else ["nested", "numpy3d"])
         for pi, plan in enumerate(dict.fromkeys(chosen)):
